@@ -18,35 +18,54 @@ fn files_of(v: &Value) -> Files {
     }).collect()
 }
 
-/// gleam.toml = FileId(0), module i = FileId(1 + i), filler modules after that
-fn structural(files: &Files, filler: usize, change: &mut Change, with_graph: bool) {
-    let mut set = FileSet::default();
-    set.insert(FileId(0), VfsPath::new("/gleam.toml"));
+/// Two packages: the first module file is package `app` (/app), the others (and the filler modules) are
+/// package `lib` (/lib); `dep` = app depends on lib.  /app/gleam.toml = FileId(0), /lib/gleam.toml = FileId(1),
+/// module i = FileId(2 + i), filler k = FileId(100 + k).
+const MOD0: u32 = 2;
+
+fn graph(dep: bool) -> PackageGraph {
+    let mut g = PackageGraph::default();
+    let app = g.add_package("app".into(), FileId(0), true);
+    let lib = g.add_package("lib".into(), FileId(1), true);
+    if dep {
+        g.add_dep(app, ide::Dependency { package: lib });
+    }
+    g
+}
+
+fn structural(files: &Files, filler: usize, change: &mut Change, with_graph: Option<bool>) {
+    let mut app = FileSet::default();
+    let mut lib = FileSet::default();
+    app.insert(FileId(0), VfsPath::new("/app/gleam.toml"));
+    lib.insert(FileId(1), VfsPath::new("/lib/gleam.toml"));
     for (i, (n, _)) in files.iter().enumerate() {
-        set.insert(FileId(1 + i as u32), VfsPath::new(format!("/test/{n}.gleam")));
+        if i == 0 {
+            app.insert(FileId(MOD0), VfsPath::new(format!("/app/src/{n}.gleam")));
+        } else {
+            lib.insert(FileId(MOD0 + i as u32), VfsPath::new(format!("/lib/src/{n}.gleam")));
+        }
     }
     for k in 0..filler {
-        set.insert(FileId(100 + k as u32), VfsPath::new(format!("/test/filler{k}.gleam")));
+        lib.insert(FileId(100 + k as u32), VfsPath::new(format!("/lib/src/filler{k}.gleam")));
     }
-    change.set_roots(vec![SourceRoot::new(set, "/".into())]);
-    if with_graph {
-        let mut g = PackageGraph::default();
-        g.add_package("test".into(), FileId(0), true);
-        change.set_package_graph(g);
+    change.set_roots(vec![SourceRoot::new(app, "/app".into()), SourceRoot::new(lib, "/lib".into())]);
+    if let Some(dep) = with_graph {
+        change.set_package_graph(graph(dep));
     }
 }
 
-fn fresh(files: &Files, filler: usize) -> AnalysisHost {
+fn fresh(files: &Files, filler: usize, dep: bool) -> AnalysisHost {
     let mut host = AnalysisHost::new();
     let mut c = Change::default();
     c.change_file(FileId(0), "".into());
+    c.change_file(FileId(1), "".into());
     for (i, (_, t)) in files.iter().enumerate() {
-        c.change_file(FileId(1 + i as u32), t.as_str().into());
+        c.change_file(FileId(MOD0 + i as u32), t.as_str().into());
     }
     for k in 0..filler {
         c.change_file(FileId(100 + k as u32), format!("pub fn filler{k}(x) {{ x + {k} }}\n").as_str().into());
     }
-    structural(files, filler, &mut c, true);
+    structural(files, filler, &mut c, Some(dep));
     host.apply_change(c);
     host
 }
@@ -69,7 +88,7 @@ fn answers(host: &AnalysisHost, files: &Files, reverse: bool, filler: usize) -> 
         plan.reverse();
     }
     let mut out: Vec<(String, String)> = plan.iter().map(|(fi, q, off)| {
-        let file = FileId(1 + *fi as u32);
+        let file = FileId(MOD0 + *fi as u32);
         let r = catch(|| match off {
             Some(o) => queries::position_query(&a, q, file, *o).canon,
             None => queries::file_query(&a, q, file, files[*fi].1.len()).canon,
@@ -116,7 +135,8 @@ fn main() {
             let (mut steps, mut compared, mut interleaved) = (0u64, 0u64, 0u64);
             let r = catch(|| {
                 let mut files = files_of(&hist[0]["files"]);
-                let mut host = fresh(&files, filler);
+                let mut dep = hist[0]["dep"].as_bool().unwrap_or(true);
+                let mut host = fresh(&files, filler, dep);
                 for (si, st) in hist.iter().enumerate().skip(1) {
                     let op = &st["op"];
                     let kind = op["k"].as_str().unwrap();
@@ -128,7 +148,7 @@ fn main() {
                             let off = b[(op["i"].as_u64().unwrap() as usize).min(b.len() - 1)];
                             let q = op["x"].as_str().unwrap();
                             let a = host.snapshot();
-                            let file = FileId(1 + fi as u32);
+                            let file = FileId(MOD0 + fi as u32);
                             let _ = catch(|| {
                                 if let Some(pq) = POSITION_QUERIES.iter().find(|p| **p == q) { queries::position_query(&a, pq, file, off); }
                                 else if let Some(fq) = FILE_QUERIES.iter().find(|p| **p == q) { queries::file_query(&a, fq, file, text.len()); }
@@ -138,24 +158,30 @@ fn main() {
                         continue;
                     }
                     let new_files = files_of(&st["files"]);
-                    // the change, built the way the server builds it: changed files only; roots when a file appears
+                    let new_dep = st["dep"].as_bool().unwrap_or(dep);
+                    // the change, built the way the server builds it: changed files only; roots when a file appears;
+                    // the package graph alone when only a dependency edge changed
                     let mut c = Change::default();
                     for (i, (_, t)) in new_files.iter().enumerate() {
                         if files.get(i).map(|(_, old)| old != t).unwrap_or(true) {
-                            c.change_file(FileId(1 + i as u32), t.as_str().into());
+                            c.change_file(FileId(MOD0 + i as u32), t.as_str().into());
                         }
                     }
+                    if new_dep != dep {
+                        c.set_package_graph(graph(new_dep));
+                    }
                     if new_files.len() != files.len() {
-                        structural(&new_files, filler, &mut c, rng.chance(1, 2));
-                    } else if rng.chance(1, 6) {
-                        structural(&new_files, filler, &mut c, rng.chance(1, 2));   // roots / graph replaced by equal ones
+                        structural(&new_files, filler, &mut c, if rng.chance(1, 2) { Some(new_dep) } else { None });
+                    } else if new_dep == dep && rng.chance(1, 6) {
+                        structural(&new_files, filler, &mut c, if rng.chance(1, 2) { Some(new_dep) } else { None });   // roots / graph replaced by equal ones
                     }
                     host.apply_change(c);
                     files = new_files;
+                    dep = new_dep;
                     steps += 1;
                     let long = answers(&host, &files, false, filler);
-                    let f1 = answers(&fresh(&files, filler), &files, false, filler);
-                    let f2 = answers(&fresh(&files, filler), &files, true, filler);
+                    let f1 = answers(&fresh(&files, filler, dep), &files, false, filler);
+                    let f2 = answers(&fresh(&files, filler, dep), &files, true, filler);
                     compared += long.len() as u64;
                     for (((k, a), (_, b)), (_, c2)) in long.iter().zip(f1.iter()).zip(f2.iter()) {
                         if a != b || b != c2 {
